@@ -11,10 +11,10 @@ for ID in $IDS; do
   D="seeded/$ID"; [ -f "$D/patch.diff" ] || continue
   W=$(mktemp -d /tmp/seedrun-XXXX)
   # git's worktree bookkeeping is not safe against concurrent add/remove: serialise it
-  flock /tmp/.seedrun-git.lock git -C /repo worktree add -f --detach "$W" HEAD >/dev/null 2>&1
+  flock /tmp/.seedrun-git.lock git -C /repo worktree add -f --detach "$W" "${BASE:-HEAD}" >/dev/null 2>&1
   if [ ! -f "$W/go.mod" ]; then echo "$ID: could not create the scratch worktree"; rm -rf "$W"; continue; fi
   if ! git -C "$W" apply "$HERE/$D/patch.diff" 2>/dev/null; then
-    echo "{\"seed_id\":\"$ID\",\"applies\":false,\"head\":\"$(git -C /repo rev-parse --short HEAD)\"}" > "$D/result.json"
+    echo "{\"seed_id\":\"$ID\",\"applies\":false,\"head\":\"$(git -C /repo rev-parse --short "${BASE:-HEAD}")\"}" > "$D/result.json"
     echo "$ID: patch does not apply to HEAD"
     flock /tmp/.seedrun-git.lock git -C /repo worktree remove --force "$W"; continue
   fi
@@ -27,7 +27,7 @@ for ID in $IDS; do
     echo "$P $RC" >> "$RESF"
     echo "$ID: $P exit=$RC $(echo "$OUT" | grep -A1 '^VIOLATION' | grep -v '^VIOLATION\|^--' | head -1)" | cut -c1-200
   done
-  python3 - "$D/result.json" "$ID" "$(git -C /repo rev-parse --short HEAD)" "$SUITE" "$RESF" <<'PY'
+  python3 - "$D/result.json" "$ID" "$(git -C /repo rev-parse --short "${BASE:-HEAD}")" "$SUITE" "$RESF" <<'PY'
 import json,sys
 out,sid,head,suite,resf=sys.argv[1:6]
 results=[]
